@@ -122,20 +122,22 @@ type Event struct {
 	Hs    []HandleView `json:"hs"`
 	Cwd   Path         `json:"cwd"`
 	Inv   string       `json:"inv"`
-	Srt   bool         `json:"srt"` // all listings sorted and duplicate free
-	Mt    string       `json:"mt"`  // digest of every modification time of the base (wrapper runs only)
+	Srt   bool         `json:"srt"`  // all listings sorted and duplicate free
+	Mt    string       `json:"mt"`   // digest of every modification time of the base (wrapper runs only)
+	Cons  []string     `json:"cons"` // primitives consulted through a FailFS wrapper during the call, in order
 }
 
 // Edge is one transition of the bounded state graph emitted by TLC.
 type Edge struct {
-	Wrap string  `json:"wrap"` // wrapper the call goes through ("" = none)
-	Wh   []Call  `json:"wh"`   // calls already made through the wrapper
-	Hist []Call  `json:"hist"`
-	Call Call    `json:"call"`
-	Res  Res     `json:"res"`
-	Pre  []Entry `json:"pre"`
-	Post []Entry `json:"post"`
-	Cwd  Path    `json:"cwd"`
+	Cons []string `json:"cons"` // primitives the specification expects the call to consult (FailFS)
+	Wrap string   `json:"wrap"` // wrapper the call goes through ("" = none)
+	Wh   []Call   `json:"wh"`   // calls already made through the wrapper
+	Hist []Call   `json:"hist"`
+	Call Call     `json:"call"`
+	Res  Res      `json:"res"`
+	Pre  []Entry  `json:"pre"`
+	Post []Entry  `json:"post"`
+	Cwd  Path     `json:"cwd"`
 }
 
 // DecodeTLC decodes a line written by TLC's CSVWrite("%1$s", <<ToJson(rec)>>):
